@@ -215,6 +215,7 @@ func (vc *FuncVC) stepBegin(st *State, in ssa.Instruction) (k int, con *Contract
 	if st.step.touched {
 		vc.interfere(st)
 	}
+	vc.flushAtCall(st)
 	con = vc.stepContract(st)
 	k = vc.step.atomicOrdinal(st.fr.fn, in)
 	st.step.prev = make(map[string]string, len(st.heaps))
